@@ -15,7 +15,7 @@ func init() {
 	register(&PropDef{
 		ID:    "C50",
 		Pkgs:  []string{lrs, cimpl},
-		Claim: "Decides the structural part: the request counters and drop counters of the load store are touched only through sync/atomic (no plain load or store through those pointers); every read-that-clears is one atomic swap with 0 (never load-then-store), and the in-progress counter is only loaded; a started call increments in-progress and issued; a finished call decrements in-progress and increments exactly one of succeeded/errored chosen by err==nil; server-load sums are updated and cleared inside one critical section; the cluster picker pairs CallStarted with a CallFinished inside the Done callback it installs. A counter entry is created exactly after a missed lookup, per-category drops are recorded exactly for named categories, and the snapshot's bookkeeping mutexes are balanced.",
+		Claim: "Decides the structural part: the request counters and drop counters of the load store are touched only through sync/atomic (no plain load or store through those pointers); every read-that-clears is one atomic swap with 0 (never load-then-store), and the in-progress counter is only loaded; a started call increments in-progress and issued; a finished call decrements in-progress and increments exactly one of succeeded/errored chosen by err==nil; server-load sums are updated and cleared inside one critical section; the cluster picker pairs CallStarted with a CallFinished inside the Done callback it installs. A counter entry is created exactly after a missed lookup, per-category drops are recorded exactly for named categories, and the snapshot's bookkeeping mutexes are balanced. The cluster picker's done hook reports server load only with a report present, per named metric, to the locality's store.",
 		NotDecided:  []string{"equality of the reported totals with the true event counts over all interleavings of reports and RPC events (history property)", "report interval timing"},
 		Assumptions: []string{"sync/atomic and sync.Map semantics", "Done runs exactly once (decided under C23)"},
 		Technique:   "static analysis: access-discipline check over all uses of the counter pointers in go/ssa, dominating guards, must-pass-through, must-lockset",
